@@ -8,6 +8,7 @@ import (
 	"encoding/base64"
 	"errors"
 	"strings"
+	"unicode/utf8"
 )
 
 const hexchars = "0123456789abcdef"
@@ -310,6 +311,11 @@ func jsStringEscape(w strWriter, s string) error {
 			esc = `\u2028`
 		case c == '\u2029':
 			esc = `\u2029`
+		case c == utf8.RuneError:
+			// Escape an invalid UTF-8 byte, not a valid U+FFFD character.
+			if _, size := utf8.DecodeRuneInString(s[i:]); size == 1 {
+				esc = `\ufffd`
+			}
 		}
 		if esc == "" {
 			continue
